@@ -250,7 +250,8 @@ class C20(Prop):
     translators = []
     header = 'From RP Require Import Raptor.Model Raptor.Oracle Raptor.Race Raptor.RaceOracle Raptor.Lin Raptor.Endings Raptor.EndingsOracle.'
     clauses = ['disjoint', 'accounting', 'quiescent_free', 'each_once', 'target_state', 'routing',
-               'forwarding', 'truthful', 'env_python', 'env_process', 'stdio', 'threads_alive']
+               'forwarding', 'truthful', 'env_python', 'env_process', 'stdio', 'threads_alive',
+               'reported_only_after_process_gone', 'no_two_live_processes_on_a_core']
     corr_name = ('Raptor.Model (wrun/master_result/master_request/submit_tasks/drun/srun) vs DefaultWorker._request_cb/'
                  '_result_cb/_alloc/_dealloc, Master._result_cb/_request_cb/_submit_tasks, Worker._dispatch_*, '
                  'AgentSchedulingComponent._schedule_incoming/control_cb')
@@ -289,7 +290,7 @@ class C20(Prop):
         'modelled, not verified: the time-out race of _dispatch (duplicate report), result queue transport between '
         'processes, MPI worker, heartbeats/registration, profiling/logging, sandbox creation',
     ]
-    assumptions = ['request uids in one stream are distinct', 'payloads change the environment through os.environ '
+    assumptions = ['SIGKILL (worker_proc.kill()) always ends the task process', 'request uids in one stream are distinct', 'payloads change the environment through os.environ '
                    '(not os.putenv) and do not rebind sys.stdout themselves',
                    'results reach _result_cb at most once per started process (duplicates are modelled as stale pids)']
     widen_cases = 1500
@@ -944,7 +945,8 @@ class C20(Prop):
             alive = bool(obs['alive'])
         elif k in ('wlin', 'mlin'):
             alive = not obs['errs'] and obs.get('alive', True)
-        return '(%s ++ [%s])' % (self._coq_row(case, obs), L.boolean(alive))
+        extra = c20race.extra_row(obs) if k == 'race' else '[true; true]'
+        return '(%s ++ [%s] ++ %s)' % (self._coq_row(case, obs), L.boolean(alive), extra)
 
     def _coq_row(self, case, obs):
         k = case['kind']
@@ -1068,6 +1070,8 @@ class C20(Prop):
         if k == 'race':
             n = len(obs['queue'])
             cond = ':%s' % ('no-result' if n == 0 else 'one-result' if n == 1 else 'reported-%d-times' % n)
+            if obs.get('reported_while_alive'):
+                cond += ':reported-while-process-alive'
         if k == 'procend':
             cond = ':process-ended-without-result' if not obs['results'] else ':' + case['end'][0]
         return '%s:%s%s' % (clause, self.SITE[k], cond)
